@@ -83,7 +83,11 @@ def findings():
 
 
 def seeds():
-    out = ["| seed | change (summary) | needs | caught by |", "|---|---|---|---|"]
+    from collections import Counter
+    cnt = Counter(json.load(open(d + "meta.json")).get("outcome", "?") for d in glob.glob(f"{V}/seeded/*/"))
+    out = ["Outcome when the seed was received / after the reaction to it (field `outcome` of meta.json): "
+           + ", ".join(f"{k}: {v}" for k, v in sorted(cnt.items())) + f" (total {sum(cnt.values())}).", "",
+           "| seed | change (summary) | needs | caught by |", "|---|---|---|---|"]
     for d in sorted(glob.glob(f"{V}/seeded/*/")):
         m = json.load(open(d + "meta.json"))
         db = m.get("detected_by") or {}
